@@ -149,6 +149,11 @@ def judge(ctx: core.Ctx, case: dict[str, Any]) -> None:
         got = M.TYPE_ERROR
     else:
         got = f"raised {o.err_class}"
+    if exp == M.FALSE_OR_TYPE_ERROR and got in (False, M.TYPE_ERROR) or exp == M.TRUE_OR_TYPE_ERROR and got in (True, M.TYPE_ERROR):
+        ctx.count("set_valued_cells_judged")
+        ctx.observe("verdict_kinds", exp)
+        ctx.ok((case,), nontrivial=True)
+        return
     if got != exp:
         ctx.evaluations += 1
         ctx.violation(f"{sig_tail}", f"{src!r} with {data!r:.120} gave {got!r}, R-cond says {exp!r}", {"source": src, "data": V.enc(data)})
